@@ -446,6 +446,7 @@ type FuncContract struct {
 	NoFrame   bool // the modifies clause is what callers see; the body's frame is assumed, not checked (listed)
 	ModifiesAll bool
 	CallAsserts []*CallAssert
+	StoreAsserts []*CallAssert // assert-store <field> : expr   (at every store to a struct field named <field>)
 	UpdateAsserts []*CallAssert // assert-update <field> : expr   (at every map update through field <field>)
 }
 
@@ -511,7 +512,7 @@ type ContractFile struct {
 
 var clauseKeywords = map[string]bool{"requires": true, "ensures": true, "modifies": true, "loop": true, "prop": true, "nopanic": true,
 	"trusted": true, "defines": true, "trusted-ensures": true, "covers": true, "func": true, "extern": true, "pure": true, "rec": true, "uninterp": true, "axiom": true, "lemma": true,
-	"ghost": true, "effectfree": true, "type-invariant": true, "relayed": true, "exempt": true, "import": true, "inline": true, "noframe": true, "splitreturns": true, "label": true, "assert": true, "assert-call": true, "assert-update": true}
+	"ghost": true, "effectfree": true, "type-invariant": true, "relayed": true, "exempt": true, "import": true, "inline": true, "noframe": true, "splitreturns": true, "label": true, "assert": true, "assert-call": true, "assert-update": true, "assert-store": true}
 
 // ParseContractFile reads //@ lines from a file.
 func ParseContractFile(path, pkg string) (*ContractFile, error) {
@@ -688,6 +689,20 @@ func ParseContractText(text, path, pkg string) (*ContractFile, error) {
 				return nil, err
 			}
 			cur.UpdateAsserts = append(cur.UpdateAsserts, &CallAssert{Callee: strings.TrimSpace(rest[:k]), Ordinal: -1, C: c})
+		case "assert-store":
+			// assert-store <field> : expr  -- $obj, $value, $old are bound at each store to a struct field named <field>
+			if cur == nil {
+				return nil, fail(l.n, "assert-store outside func")
+			}
+			k := strings.Index(rest, " : ")
+			if k < 0 {
+				return nil, fail(l.n, "assert-store <field> : <expr>")
+			}
+			c, err := mkClause("assert-store", strings.TrimSpace(rest[k+3:]), l.n)
+			if err != nil {
+				return nil, err
+			}
+			cur.StoreAsserts = append(cur.StoreAsserts, &CallAssert{Callee: strings.TrimSpace(rest[:k]), Ordinal: -1, C: c})
 		case "modifies":
 			if cur == nil {
 				return nil, fail(l.n, "modifies outside func")
